@@ -2,6 +2,7 @@
 //! (`<suite>.ops`), its own results (`<suite>.impl`), oracle verdicts
 //! (`<suite>.oracle`) and the input distribution (`<suite>.stats.json`).
 mod core;
+mod engine;
 mod out;
 mod rng;
 mod ss;
@@ -32,6 +33,7 @@ fn main() {
         "views" => core::suite_views(&mut out, seed, count, arg(&args, "--depth", "2").parse().unwrap()),
         "views-exh" => core::suite_views_exhaustive(&mut out, arg(&args, "--universe", "2").parse().unwrap(), arg(&args, "--bound", "8").parse().unwrap()),
         "prune-exh" => core::suite_prune_exhaustive(&mut out, arg(&args, "--universe", "2").parse().unwrap(), arg(&args, "--shard", "0").parse().unwrap(), arg(&args, "--shards", "1").parse().unwrap()),
+        "engine" => engine::suite(&mut out, seed, count),
         "replay" => {
             // re-run the ops of a file verbatim (used by --replay)
             let path = arg(&args, "--ops", "");
@@ -50,12 +52,27 @@ fn replay(out: &mut Out, path: &str) {
     let text = std::fs::read_to_string(path).unwrap();
     let mut ssc: Option<ss::Case> = None;
     let mut sc = core::StoreCase::new();
-    for line in text.lines() {
+    let mut ec = engine::EngCase { doms: vec![], kinds: vec![] };
+    // engine cases are recognised by a `post` line
+    let is_engine_case = |from: usize, lines: &Vec<&str>| -> bool {
+        lines[from..].iter().take_while(|l| !l.starts_with("case ")).any(|l| l.starts_with("post "))
+    };
+    let lines: Vec<&str> = text.lines().collect();
+    let mut eng = false;
+    for (li, line) in lines.iter().enumerate() {
+        let line = *line;
         let w = line.split_whitespace().next().unwrap_or("");
         if w == "case" {
+            eng = is_engine_case(li + 1, &lines);
+            ec = engine::EngCase { doms: vec![], kinds: vec![] };
             out.case(line.split_whitespace().nth(1).unwrap_or("r"));
             ssc = None;
             sc = core::StoreCase::new();
+        } else if eng && (w == "st.var" || w == "post" || w == "fix" || w == "enum" || w == "opt") {
+            if w == "st.var" {
+                core::replay_line(&mut sc, out, line);
+            }
+            engine::replay_line(&mut ec, out, line);
         } else if w == "st.var" || w == "prune" || w == "ctx.min" || w == "ctx.max" {
             core::replay_line(&mut sc, out, line);
         } else if w == "ss.new" || w == "ss.unchecked" || w == "ss.values" {
